@@ -12,7 +12,9 @@ Inductive op :=
 | OpReplaceUser (a : alias) (c : certv) (k : key)   (* user-supplied certificate+key, no hash line *)
 | OpSupplyCsr (a : alias) (r : nat)
 | OpAdd (e : ent)
-| OpRemove (a : alias).
+| OpRemove (a : alias)
+| OpEditProfile (l : list (alias * cfg)).    (* a profile (one other file) is edited: every entity that references it gets a new effective
+                                                configuration, its own configuration file keeps its modification time *)
 
 Definition set_cfg (es : list ent) (a : alias) (c : cfg) (now : nat) : list ent :=
   map (fun e => if Nat.eqb (e_alias e) a then mkEnt (e_alias e) c now (e_file e) else e) es.
@@ -43,5 +45,9 @@ Definition apply_op (d : dir) (o : op) : dir :=
                  | None => es ++ [mkEnt (e_alias e) (e_cfg e) now None]
                  end
     | OpRemove a => filter (fun e => negb (Nat.eqb (e_alias e) a)) es
+    | OpEditProfile l => map (fun e => match find (fun p => Nat.eqb (fst p) (e_alias e)) l with
+                                       | Some p => mkEnt (e_alias e) (snd p) (e_cfg_mtime e) (e_file e)
+                                       | None => e
+                                       end) es
     end in
   mkDir es' now (d_nextkey d).
